@@ -53,7 +53,7 @@ var editKinds = []string{
 	"remove-service", "remove-method", "add-required-field", "optional-to-required", "change-field-type",
 	// compatible
 	"add-optional-field", "add-method", "add-service", "add-type", "add-const", "delete-struct", "reorder-defs", "reorder-fields",
-	"change-default", "rename-field", "required-to-optional", "add-include", "add-file", "delete-file", "add-required-field-with-default",
+	"change-default", "rename-field", "required-to-optional", "add-include", "add-file", "delete-file", "add-required-field-with-default", "remove-field",
 }
 
 func (p *Program) structs(f *File) []*Def {
@@ -130,6 +130,22 @@ func (p *Program) ApplyEdit(hasAddFile, hasDelFile bool) *Edit {
 		fd := &FieldDef{ID: id, Name: fmt.Sprintf("addeddef%d", id), Type: &TypeRef{Base: "i32"}, Req: ReqRequired, Default: &ConstVal{Kind: CInt, Int: int64(id)}}
 		s.Fields = append(s.Fields, fd)
 		return &Edit{kind, false, fmt.Sprintf("field %s of %s in %s", fd.Name, s.Name, f.RelPath())}
+	case "remove-field":
+		// dropping a field is not one of the documented breaking changes
+		var ss []*Def
+		for _, d := range f.Defs {
+			if !d.Removed && (d.Kind == KStruct || d.Kind == KException || d.Kind == KUnion) && len(d.Fields) > 1 {
+				ss = append(ss, d)
+			}
+		}
+		if len(ss) == 0 {
+			return nil
+		}
+		s := ss[ch("edit.pick", len(ss))]
+		i := ch("edit.field", len(s.Fields))
+		name := s.Fields[i].Name
+		s.Fields = append(s.Fields[:i:i], s.Fields[i+1:]...)
+		return &Edit{kind, false, fmt.Sprintf("field %s of %s in %s", name, s.Name, f.RelPath())}
 	case "add-required-field", "add-optional-field":
 		ss := p.structs(f)
 		if len(ss) == 0 {
@@ -137,6 +153,19 @@ func (p *Program) ApplyEdit(hasAddFile, hasDelFile bool) *Edit {
 		}
 		s := ss[ch("edit.pick", len(ss))]
 		id := nextID(s.Fields)
+		if simrt.Flip("edit.low-id", 0.4) {
+			// an identifier below the highest one that is free (never used, or freed by a removal)
+			used := map[int]bool{}
+			for _, x := range s.Fields {
+				used[x.ID] = true
+			}
+			for k := 1; k < id; k++ {
+				if !used[k] {
+					id = k
+					break
+				}
+			}
+		}
 		fd := &FieldDef{ID: id, Name: fmt.Sprintf("added%d", id), Type: &TypeRef{Base: baseTypes[ch("edit.base", len(baseTypes))]}, Req: ReqOptional}
 		if kind == "add-required-field" {
 			fd.Req = ReqRequired
